@@ -108,7 +108,7 @@ class Ctx(object):
         self.failkeys[kk] += 1
         # keep the first few witnesses per key, bounded overall
         if self.failkeys[kk] <= 3 and len(self.fails) < self.MAXFAIL:
-            self.fails.append({'case': case, 'fail': f})
+            self.fails.append({'case': case, 'fail': f, 'shard': getattr(self, 'shardinfo', None)})
 
     classify = None
 
